@@ -214,6 +214,14 @@ def run_set_history(ctx, coords, steps, res, stream, case):
     from fractopo import Network
 
     frame = gpd.GeoDataFrame({"uid": [f"u{i}" for i in range(len(coords))]}, geometry=[LineString(c) for c in coords])
+    if len(coords) % 2 == 1:
+        # a caller's frame whose integer labels are not the row positions (a sorted / filtered selection): nothing may be aligned by label
+        import random as _random
+
+        labels = [3 * i + 2 for i in range(len(coords))]
+        _random.Random(len(coords)).shuffle(labels)
+        frame.index = labels
+        res.distribution["shuffled_labels"] = res.distribution.get("shuffled_labels", 0) + 1
     cols_before = list(frame.columns)
     for si, (ranges, names, area_box, truncate) in enumerate(steps):
         where = f"step {si + 1}"
@@ -272,7 +280,7 @@ def s15_network(ctx):
     """HISTORIES: one caller's trace frame analysed by 2-3 Networks with different azimuth set definitions (and areas); azimuths, set membership,
     set counts and per-set length arrays of every Network against the specification evaluated on that Network's own traces"""
     import_fractopo()
-    res = StreamResult("S15-network", rule="frames of 3..10 chords (all directions incl. axis-parallel and diagonal, an interior vertex, half reversed) x histories of 2-3 "
+    res = StreamResult("S15-network", rule="frames of 3..10 chords (all directions incl. axis-parallel and diagonal, an interior vertex, half reversed; frames with an odd number of rows carry shuffled integer labels) x histories of 2-3 "
                        "Network(...) calls on the SAME caller's frame, each with another of the 7 range tuples (names differ per step) and either no truncation, truncation to "
                        "a containing box or to a box that cuts traces; per Network: trace_azimuth_array = Spec azimuth of its own chords, trace_azimuth_set_array = "
                        "Spec.detSet of those (Lean), counts and per-set length arrays partition its own traces; non-trivial = every history (the steps use different range tuples and set names)")
